@@ -14,6 +14,7 @@ import (
 	"strconv"
 	"strings"
 	"sync"
+	"syscall"
 	"time"
 
 	"verifkit/vinstr"
@@ -31,8 +32,13 @@ type propSpec struct {
 	Parts []partSpec
 }
 
+var tempWork string // removed on every exit path
+
 func infra(format string, a ...any) {
 	fmt.Fprintf(os.Stderr, "INFRA: "+format+"\n", a...)
+	if tempWork != "" {
+		os.RemoveAll(tempWork)
+	}
 	os.Exit(2)
 }
 
@@ -208,6 +214,7 @@ func main() {
 	if err != nil {
 		infra("%v", err)
 	}
+	tempWork = work
 	code := run(work)
 	os.RemoveAll(work)
 	os.Exit(code)
@@ -272,7 +279,29 @@ func run(work string) int {
 		cmd.Env = append(os.Environ(), "VK_PART_OUT="+out, "VK_PROP="+id, "VERIF_TIER="+tier, "VERIF_SEED="+strconv.FormatInt(seed, 10), "VK_WORK="+work)
 		cmd.Stdout = os.Stderr // sub-check chatter goes to stderr; stdout is reserved for verdict lines
 		cmd.Stderr = os.Stderr
-		err := cmd.Run()
+		cmd.SysProcAttr = &syscall.SysProcAttr{Setpgid: true}
+		// a part that hangs (e.g. the code under test deadlocks outside every scheduler) must not
+		// hang the check: it ends as an infrastructure error after a generous limit
+		limit := 40 * time.Minute
+		if tier == "thorough" {
+			limit = 6 * time.Hour
+		}
+		if v, perr := time.ParseDuration(os.Getenv("VERIF_PART_TIMEOUT")); perr == nil && v > 0 {
+			limit = v
+		}
+		if serr := cmd.Start(); serr != nil {
+			infra("cannot start part %s: %v", p.Name, serr)
+		}
+		done := make(chan error, 1)
+		go func() { done <- cmd.Wait() }()
+		var err error
+		select {
+		case err = <-done:
+		case <-time.After(limit):
+			syscall.Kill(-cmd.Process.Pid, syscall.SIGKILL)
+			<-done
+			infra("part %s did not finish within %v (hung?) and was killed", p.Name, limit)
+		}
 		pb, rerr := os.ReadFile(out)
 		if rerr != nil {
 			infra("part %s produced no report (run error: %v)", p.Name, err)
